@@ -3,11 +3,12 @@
    (resolution, blank value, coverage mask and the value of every pixel); the premise wf holds for
    every map produced by an operation proved to preserve it (make_empty with or without
    pre-allocation, updates in any order, clears, scalar/boolean-constant operators, astype, field
-   copies, apply_mask, degrade, upgrade, partial and full reads).  Representation facts outside the
+   copies, apply_mask, degrade, upgrade, partial and full reads, boolean map-with-map operators, multi-map
+   operations).  Representation facts outside the
    model (array ownership, byte order, array subclass) are covered by the implementation-twin
    correspondence of this property (harness/gens2.gen_c10). *)
 From HS Require Import Prelude Cov Map Spec Ops Spec2 Params AtFold MapProofs UpdateProofs HistoryProofs
-     LayoutProofs AccountProofs OpsProofs CongProofs.
+     LayoutProofs AccountProofs OpsProofs RebuildProofs CongProofs MultiRefine CongRefine.
 Open Scope Z_scope.
 
 Section C10.
@@ -58,10 +59,61 @@ Theorem C10_conversions_preserve_equality :
     abs (p_V P') (p_dv P') (astype (p_V P) (p_V P') (p_valid P) conv nb m2).
 Proof. exact astype_congruence. Qed.
 
+(* ---- operations whose refinement is proved in RebuildProofs / BoolRefine / MultiRefine ---- *)
+Theorem C10_upgrade_preserves_equality :
+  forall (P : params) (r : Z) (m1 m2 : smap (p_V P)),
+    wf P m1 -> wf P m2 -> 0 < r -> abs (p_V P) (p_dv P) m1 = abs (p_V P) (p_dv P) m2 ->
+    abs (p_V P) (p_dv P) (upgrade (p_V P) r m1) = abs (p_V P) (p_dv P) (upgrade (p_V P) r m2).
+Proof. exact upgrade_congruence. Qed.
+
+(* weighted degrade: content-equal maps, the same weights per sky pixel — each laid out in the storage
+   order of its own map (what re-housing the weight map achieves) *)
+Theorem C10_weighted_degrade_preserves_equality :
+  forall (P P' : params) (red : list (p_V P * p_V P') -> p_V P') (r : Z) (nb : p_V P')
+         (m1 m2 : smap (p_V P)) (w1 w2 wd : list (p_V P')),
+    wf P m1 -> wf P m2 -> 0 < r -> nfine m1 mod r = 0 ->
+    aligned P P' m1 w1 wd -> aligned P P' m2 w2 wd -> zlen wd = npix (p_V P) m1 ->
+    abs (p_V P) (p_dv P) m1 = abs (p_V P) (p_dv P) m2 ->
+    abs (p_V P') (p_dv P') (degrade2 (p_V P) (p_V P') red r nb m1 w1) =
+    abs (p_V P') (p_dv P') (degrade2 (p_V P) (p_V P') red r nb m2 w2).
+Proof. exact degrade_congruence. Qed.
+
+(* boolean map-with-map operators: either form, on either pair of content-equal operands *)
+Theorem C10_boolean_map_operators_preserve_equality :
+  forall (P : params) (f : p_V P -> p_V P -> p_V P) (a1 b1 a2 b2 : smap (p_V P)) (vfalse : p_V P),
+    wf P a1 -> wf P b1 -> nfine b1 = nfine a1 -> ncov (p_V P) b1 = ncov (p_V P) a1 ->
+    wf P a2 -> wf P b2 -> nfine b2 = nfine a2 -> ncov (p_V P) b2 = ncov (p_V P) a2 ->
+    vfalse = blank a2 ->
+    abs (p_V P) (p_dv P) a1 = abs (p_V P) (p_dv P) a2 -> abs (p_V P) (p_dv P) b1 = abs (p_V P) (p_dv P) b2 ->
+    abs (p_V P) (p_dv P) (bool_map_op_inplace (p_V P) (p_dv P) f a1 b1) =
+      abs (p_V P) (p_dv P) (bool_map_op_inplace (p_V P) (p_dv P) f a2 b2) /\
+    abs (p_V P) (p_dv P) (bool_map_op_inplace (p_V P) (p_dv P) f a1 b1) =
+      abs (p_V P) (p_dv P) (bool_map_op_copy (p_V P) vfalse f a2 b2).
+Proof. exact bool_op_congruence. Qed.
+
+(* multi-map operations: input lists with equal abstractions (and validity tests) *)
+Theorem C10_multi_map_operations_preserve_equality :
+  forall (P : params) (f : p_V P -> p_V P -> p_V P) (conv : p_V P -> p_V P) (filler sentinel : p_V P) (ff : bool)
+         (vout : p_V P -> bool) ncv nf (union fis : bool) (ms1 ms2 : list (vmap (p_V P))),
+    vout sentinel = false -> 0 <= ncv -> 0 < nf ->
+    ms1 <> [] -> (forall vm, In vm ms1 -> okmap P ncv nf vm) ->
+    ms2 <> [] -> (forall vm, In vm ms2 -> okmap P ncv nf vm) ->
+    (union = true -> ff = false) -> (fis = true -> filler = sentinel) ->
+    dsof P ms1 = dsof P ms2 ->
+    exists m1 m2,
+      apply_operation (p_V P) (p_dv P) f conv filler sentinel fis union ff ms1 = Some m1 /\
+      apply_operation (p_V P) (p_dv P) f conv filler sentinel fis union ff ms2 = Some m2 /\
+      abs (p_V P) (p_dv P) m1 = abs (p_V P) (p_dv P) m2.
+Proof. exact apply_operation_congruence. Qed.
+
 Print Assumptions C10_updates_on_equal_maps_give_equal_maps.
 Print Assumptions C10_every_update_history_preserves_equality.
 Print Assumptions C10_scalar_operators_preserve_equality.
 Print Assumptions C10_invert_and_constants_preserve_equality.
 Print Assumptions C10_apply_mask_preserves_equality.
 Print Assumptions C10_equal_maps_have_equal_counts.
+Print Assumptions C10_upgrade_preserves_equality.
+Print Assumptions C10_weighted_degrade_preserves_equality.
+Print Assumptions C10_boolean_map_operators_preserve_equality.
+Print Assumptions C10_multi_map_operations_preserve_equality.
 Print Assumptions C10_conversions_preserve_equality.
